@@ -53,6 +53,23 @@ def isolation(ctx: Ctx, fi, node, depth=0, seen=None):
     g = ctx.guards
     ct = g.catching_try(node, fi, "Exception")
     loops = paths.enclosing_loops(ctx.prog, node, fi)
+    # what the failure skips on its way to the guard: a result / snapshot handed over after the plugin's callback, in the same
+    # guarded region, is lost with it (the plugin costs more than its own contribution)
+    st_node = paths.stmt_of(ctx.prog, node) if not isinstance(node, ast.stmt) else node
+    for c2 in ctx.types.calls_in(fi):
+        if c2 is node or c2.lineno <= getattr(st_node, "end_lineno", node.lineno) or any(paths.within(ctx.prog, c2, lp_) and paths.within(ctx.prog, node, lp_) for lp_ in loops):
+            continue
+        if ct is not None and not any(paths.within(ctx.prog, c2, b_) for b_ in ct[0].body):
+            continue
+        if any(isinstance(a_, ast.ExceptHandler) for a_ in ctx.prog.ancestors(c2, stop=fi.node)):
+            continue
+        if any(f_.name in ("attach_result", "push_snapshot") for f_ in ctx.types.resolve_call(c2, fi).repo):
+            # exclusive branches (if / else) are not 'after'
+            cs1 = {(norm(c_), pol) for c_, pol in paths.conditions(ctx.prog, node, fi)}
+            cs2 = {(norm(c_), pol) for c_, pol in paths.conditions(ctx.prog, c2, fi)}
+            if any((c_, not pol) in cs2 for c_, pol in cs1):
+                continue
+            return (fi, c2, "a failure of the plugin callback skips `%s` (%s): the plugin costs the whole result, not only its own contribution" % (norm(c2)[:60], fi.loc(c2)))
     if ct is not None:
         tr, h = ct
         for lp in loops:
@@ -183,7 +200,7 @@ def run(ctx: Ctx, tier: str) -> Result:
         if len(acc) == 1 and isinstance(acc[0].targets[0], ast.Name):
             an = acc[0].targets[0].id
             kw = {k.arg: norm(k.value) for k in acc[0].value.keywords}
-            fin = [c for c in ctx.types.calls_in(dec) if isinstance(c.func, ast.Attribute) and c.func.attr == "merge_in" and c.args and norm(c.args[0]) == an
+            fin = [c for c in ctx.types.calls_in(dec) if isinstance(c.func, ast.Attribute) and c.func.attr in ("merge_in", "update") and len(c.args) == 1 and not c.keywords and norm(c.args[0]) == an
                    and not paths.conditions(ctx.prog, c, dec) and not paths.enclosing_loops(ctx.prog, c, dec)]
             okd = kw.get("immutable") == "False" and len(fin) == 1 and norm(fin[0].func.value).endswith("snapshot.attributes")
         if okd:
@@ -196,15 +213,31 @@ def run(ctx: Ctx, tier: str) -> Result:
     lp = ctx.prog.func("deep.api.plugin.load_plugins")
     appends = [c for c in ctx.types.calls_in(lp) if isinstance(c.func, ast.Attribute) and c.func.attr == "append"]
     need(appends, "load_plugins: no append of loaded plugin found")
-    for a in appends:
-        conds = paths.conditions(ctx.prog, a, lp)
-        ok = False
-        for test, pol in conds:
+    def _active_holds(node, f_):
+        for test, pol in paths.conditions(ctx.prog, node, f_):
             for c in ast.walk(test):
-                if isinstance(c, ast.Call) and any(t.name == "is_active" for t in ctx.types.resolve_call(c, lp).repo):
+                if isinstance(c, ast.Call) and any(t.name == "is_active" for t in ctx.types.resolve_call(c, f_).repo):
                     # active => kept : either `if x.is_active(): append` or `if not x.is_active(): continue`
                     neg = isinstance(test, ast.UnaryOp) and isinstance(test.op, ast.Not)
-                    ok = ok or (neg != pol)
+                    if neg != pol:
+                        return True
+        return False
+
+    for a in appends:
+        ok = _active_holds(a, lp)
+        if not ok and a.args and isinstance(a.args[0], ast.Name):
+            # the plugin comes from a creating helper that answers None for a plugin to skip: the append happens only for a
+            # value that is not None, and the helper returns a plugin only with the is_active() test holding
+            nm_ = a.args[0].id
+            cs_ = [(norm(c_), pol) for c_, pol in paths.conditions(ctx.prog, a, lp)]
+            notnone = any((t_ == "%s is None" % nm_ and not pol) or (t_ == "%s is not None" % nm_ and pol) for t_, pol in cs_)
+            binds = [b for k_, b in ctx.types.local_bindings(lp, nm_) if k_ == "assign"]
+            if notnone and len(binds) == 1 and isinstance(binds[0][1], ast.Call):
+                hs = ctx.types.resolve_call(binds[0][1], lp).repo
+                if len(hs) == 1 and hs[0].qname in ctx.prog.functions:
+                    h = hs[0]
+                    rets = [r for r in ctx.types.nodes_in(h, ast.Return) if r.value is not None and not (isinstance(r.value, ast.Constant) and r.value.value is None)]
+                    ok = bool(rets) and all(_active_holds(r, h) for r in rets)
         if ok:
             res.ok("C20.LOAD", {"append only when active": norm(a), "at": lp.loc(a)})
         else:
@@ -294,6 +327,18 @@ def run(ctx: Ctx, tier: str) -> Result:
                 if kw.arg == "key":
                     if key_calls_order(ctx, kw.value, lp):
                         sorted_by_order = not any(k.arg == "reverse" for k in c.keywords)
+                        # the sorted list is the one handed back: `x.sort(...)` on the returned list, or the value of
+                        # `sorted(...)` returned (directly or through one local)
+                        rets_l = [r for r in ctx.types.nodes_in(lp, ast.Return) if r.value is not None]
+                        if any(e == "builtins.sorted" for e in tg.ext):
+                            st_c = paths.stmt_of(ctx.prog, c)
+                            used = isinstance(st_c, ast.Return) and st_c.value is c or \
+                                (isinstance(st_c, ast.Assign) and st_c.value is c and isinstance(st_c.targets[0], ast.Name)
+                                 and any(isinstance(r.value, ast.Name) and r.value.id == st_c.targets[0].id for r in rets_l))
+                        else:
+                            used = isinstance(c.func, ast.Attribute) and isinstance(c.func.value, ast.Name) and \
+                                bool(rets_l) and all(isinstance(r.value, ast.Name) and r.value.id == c.func.value.id for r in rets_l)
+                        sorted_by_order = sorted_by_order and used
     if sorted_by_order:
         res.ok("C20.LOAD", {"sorted by order()": True})
     else:
